@@ -305,6 +305,154 @@ theorem fold_model_is_snapshot_model (eps : α) (pat ntrain nvalid maxRounds : N
       (fit (L := L) eps pat ntrain nvalid maxRounds vmax train0 valid0 evs).2.round + 1 :=
   (fitLoop_inv eps pat ntrain nvalid maxRounds vmax train0 valid0 evs).2.2 hv
 
+/-! ### the loop and the monitor: every history the loop can produce -/
+
+/-- For every behaviour of the iterations: the monitor with which `::fit` reaches `result.done` is a fresh monitor driven
+    over the calls the fit made (`fitCalls`: the one on the bias-only model, then one per regular round); these calls are
+    numbered like the histories of `es_patience_rounds` (the `k`-th call sees `k` learners), and every call but the last
+    one answered `false` — so all the theorems about histories apply to the loop. -/
+theorem fit_monitor_history (eps : α) (pat ntrain nvalid maxRounds : Nat) (vmax train0 valid0 : α)
+    (evs : List (RoundEv L α)) :
+    (fit eps pat ntrain nvalid maxRounds vmax train0 valid0 evs).2 =
+      stateAfter eps pat (init vmax) (fitCalls eps pat ntrain nvalid maxRounds vmax train0 valid0 evs) ∧
+    FitNumbered (fitCalls eps pat ntrain nvalid maxRounds vmax train0 valid0 evs) ∧
+    (∀ pre c post, fitCalls eps pat ntrain nvalid maxRounds vmax train0 valid0 evs = pre ++ c :: post → post ≠ [] →
+      (answers eps pat (init vmax) (pre ++ [c])).getLast? = some false) := by
+  obtain ⟨h1, h2⟩ := fitLoop_calls eps pat ntrain nvalid maxRounds vmax train0 valid0 evs
+  refine ⟨h1, fun pre c post e => (h2 pre c post e).1, ?_⟩
+  intro pre c post e hne
+  rw [answers_append]
+  simp only [answers, List.getLast?_append, List.getLast?_singleton, Option.some_or, Option.some.injEq]
+  exact (h2 pre c post e).2.2.2.2 hne
+
+/-- **The number of learners the fold keeps is the round of the last accepted improvement** — for every history the loop
+    can produce (first call accepted, i.e. `valid0 < DBL_MAX - ε`): the calls of the fit split as `pre ++ c :: post` where
+    `c` was accepted when it was made, no call after `c` was accepted (training error below ε, no validation samples, or
+    an improvement of more than ε on `c`'s validation error), the monitor reports exactly `c`, and the fold keeps exactly
+    the first `|pre|` learners the iterations appended — `|pre|` being the number of learners `c` saw. -/
+theorem fit_keeps_last_accepted (eps : α) (pat ntrain nvalid maxRounds : Nat) (vmax train0 valid0 : α)
+    (evs : List (RoundEv L α)) (hv : valid0 < vmax - eps) :
+    ∃ pre c post, fitCalls eps pat ntrain nvalid maxRounds vmax train0 valid0 evs = pre ++ c :: post ∧
+      Improves eps (stateAfter eps pat (init vmax) pre).value c ∧ (∀ d ∈ post, ¬ Improves eps c.valid d) ∧
+      (fit eps pat ntrain nvalid maxRounds vmax train0 valid0 evs).2 = record c ∧ c.n = pre.length ∧
+      (fit eps pat ntrain nvalid maxRounds vmax train0 valid0 evs).1 = (learnersOf (evs.take maxRounds)).take pre.length ∧
+      (fit eps pat ntrain nvalid maxRounds vmax train0 valid0 evs).1.length = pre.length := by
+  obtain ⟨hst, hnum, _⟩ := fit_monitor_history eps pat ntrain nvalid maxRounds vmax train0 valid0 evs
+  obtain ⟨hlen, hkept⟩ := fold_keeps_round_learners eps pat ntrain nvalid maxRounds vmax train0 valid0 evs
+  rcases es_no_missed_improvement eps pat (init vmax) (fitCalls eps pat ntrain nvalid maxRounds vmax train0 valid0 evs) with
+    ⟨_, hall⟩ | ⟨pre, c, post, e, hacc, hrec, hpost⟩
+  · -- the call on the bias-only model improves on DBL_MAX
+    exfalso
+    refine hall { train := train0, valid := valid0, n := 0, ntrain := ntrain, nvalid := nvalid, idx := 1 } ?_
+      (Or.inr (Or.inl hv))
+    unfold fitCalls; simp
+  · have hcn : c.n = pre.length := hnum pre c post e
+    have hround : (fit eps pat ntrain nvalid maxRounds vmax train0 valid0 evs).2.round = pre.length := by
+      rw [hst, hrec]; exact hcn
+    refine ⟨pre, c, post, e, hacc, hpost, by rw [hst, hrec], hcn, ?_, ?_⟩
+    · rw [hkept, hround]
+    · rw [hlen, hround]
+
+/-- The patience exit of the loop, patience ≥ 1, observed validation errors below `DBL_MAX - ε`: when the last call `d` of the
+    fit answered `true` although its training error is not below ε, the reported call `c` is followed by **exactly
+    `patience`** calls, none of them accepted, and the fold keeps the `|pre|` learners that `c` saw. -/
+theorem fit_patience_stop (eps : α) (pat : Nat) (hpat : 1 ≤ pat) (ntrain nvalid maxRounds : Nat) (vmax train0 valid0 : α)
+    (evs : List (RoundEv L α)) (h : List (Call α)) (d : Call α)
+    (hcalls : fitCalls eps pat ntrain nvalid maxRounds vmax train0 valid0 evs = h ++ [d])
+    (hv : ∀ c ∈ h ++ [d], c.valid < vmax - eps)
+    (htrue : (done eps pat (stateAfter eps pat (init vmax) h) d).2 = true) (hd : ¬ d.train < eps) :
+    ∃ pre c post, h = pre ++ c :: post ∧ Improves eps (stateAfter eps pat (init vmax) pre).value c ∧
+      (fit eps pat ntrain nvalid maxRounds vmax train0 valid0 evs).2 = record c ∧
+      (fit eps pat ntrain nvalid maxRounds vmax train0 valid0 evs).1.length = pre.length ∧
+      (∀ e ∈ post ++ [d], ¬ Improves eps c.valid e) ∧ (post ++ [d]).length = pat := by
+  obtain ⟨hst, hnum, hans⟩ := fit_monitor_history eps pat ntrain nvalid maxRounds vmax train0 valid0 evs
+  obtain ⟨hlen, _⟩ := fold_keeps_round_learners eps pat ntrain nvalid maxRounds vmax train0 valid0 evs
+  rw [hcalls] at hst hnum hans
+  have hfalse : ∀ b ∈ answers eps pat (init vmax) h, b = false := by
+    intro b hb
+    obtain ⟨pre, c, post, e, hbc⟩ := mem_answers eps pat (init vmax) h b hb
+    have := hans pre c (post ++ [d]) (by rw [e]; simp) (by simp)
+    rw [answers_append] at this
+    simp only [answers, List.getLast?_append, List.getLast?_singleton, Option.some_or, Option.some.injEq] at this
+    rw [hbc]; exact this
+  obtain ⟨pre, c, post, e, hacc, hrec, hcn, hpost, hcount⟩ :=
+    es_patience_rounds eps pat hpat vmax h d hnum hv hfalse htrue hd
+  refine ⟨pre, c, post, e, hacc, by rw [hst, hrec], ?_, hpost, hcount⟩
+  rw [hlen, hst, hrec]; exact hcn
+
+/-- the observation-driven fit (`fitObs`, what the differential run executes on the logged oracle answers) keeps exactly
+    the first `round` learners of those its iterations appended, whatever was observed -/
+theorem fitObs_keeps_round_learners (eps : α) (pat ntrain nvalid maxRounds : Nat) (vmax noFit epsMach train0 valid0 : α)
+    (obs : List (RoundObs L α)) :
+    (fitObs eps pat ntrain nvalid maxRounds vmax noFit epsMach train0 valid0 obs).1.length =
+        (fitObs eps pat ntrain nvalid maxRounds vmax noFit epsMach train0 valid0 obs).2.round ∧
+    (fitObs eps pat ntrain nvalid maxRounds vmax noFit epsMach train0 valid0 obs).1 =
+        (learnersOf ((obs.map (roundEv noFit epsMach)).take maxRounds)).take
+          (fitObs eps pat ntrain nvalid maxRounds vmax noFit epsMach train0 valid0 obs).2.round :=
+  fold_keeps_round_learners eps pat ntrain nvalid maxRounds vmax train0 valid0 (obs.map (roundEv noFit epsMach))
+
+/-- `loopTrace` (what the differential run prints iteration by iteration) is the loop with its intermediate states: the
+    state after the last executed iteration is the loop's result, at most one iteration per event is executed, and only the
+    last executed iteration can have left the loop -/
+theorem loopTrace_is_loop (eps : α) (pat ntrain nvalid : Nat) (st : LoopSt L α) (evs : List (RoundEv L α)) :
+    loop eps pat ntrain nvalid st evs = (((loopTrace eps pat ntrain nvalid st evs).getLast?).map (·.1)).getD st ∧
+    (loopTrace eps pat ntrain nvalid st evs).length ≤ evs.length ∧
+    (∀ pre r post, loopTrace eps pat ntrain nvalid st evs = pre ++ r :: post → post ≠ [] → r.2 = false) :=
+  ⟨loop_eq_loopTrace_last eps pat ntrain nvalid evs st, loopTrace_flags eps pat ntrain nvalid evs st⟩
+
+/-! ### the choice of the weak learner (`best_score` / `best_wlearner`, model.cpp:134-149) -/
+
+/-- the loop is left for want of a learner ⇔ no prototype returned a score below `no_fit_score()` -/
+theorem pickBest_none_iff (noFit : α) (cands : List (α × L)) :
+    (pickBest noFit cands).2 = none ↔ ∀ c ∈ cands, ¬ c.1 < noFit := by
+  unfold pickBest
+  rcases pickBest_go cands noFit none with ⟨e, hall⟩ | ⟨pre, s, w, post, e1, e2, h1, _, _⟩
+  · rw [e]; exact ⟨fun _ => hall, fun _ => rfl⟩
+  · rw [e2]
+    constructor
+    · intro h; exact absurd h (by simp)
+    · intro hall; exact absurd h1 (hall (s, w) (by rw [e1]; simp))
+
+/-- the chosen learner is the **first** candidate with the **smallest** score, that score is below `no_fit_score()` and
+    it is the reported `best_score` -/
+theorem pickBest_first_min (noFit : α) (cands : List (α × L)) (w : L) (h : (pickBest noFit cands).2 = some w) :
+    ∃ pre s post, cands = pre ++ (s, w) :: post ∧ (pickBest noFit cands).1 = s ∧ s < noFit ∧
+      (∀ c ∈ pre, s < c.1) ∧ ∀ c ∈ post, s ≤ c.1 := by
+  unfold pickBest at h ⊢
+  rcases pickBest_go cands noFit none with ⟨e, _⟩ | ⟨pre, s, w', post, e1, e2, h1, h2, h3⟩
+  · rw [e] at h; exact absurd h (by simp)
+  · rw [e2] at h ⊢
+    have hw : w' = w := by simpa using h
+    subst hw
+    exact ⟨pre, s, post, e1, rfl, h1, h2, h3⟩
+
+/-- which branch an iteration takes, from what it observes: no learner ⇔ no score below `no_fit_score()`; otherwise the
+    scaling-failure branch ⇔ `gstate.x().min() < numeric_limits::epsilon()`, with the first best candidate appended -/
+theorem roundEv_spec (noFit epsMach : α) (o : RoundObs L α) :
+    (roundEv noFit epsMach o = .noLearner ↔ ∀ c ∈ o.cands, ¬ c.1 < noFit) ∧
+    (∀ w, roundEv noFit epsMach o = .scaleFail w ↔ ((pickBest noFit o.cands).2 = some w ∧ o.xmin < epsMach)) ∧
+    (∀ w t v, roundEv noFit epsMach o = .fitted w t v ↔
+      ((pickBest noFit o.cands).2 = some w ∧ ¬ o.xmin < epsMach ∧ t = o.train ∧ v = o.valid)) := by
+  rw [← pickBest_none_iff]
+  unfold roundEv
+  cases hb : (pickBest noFit o.cands).2 with
+  | none => simp
+  | some w0 =>
+    by_cases hx : o.xmin < epsMach
+    · simp only [hx, if_true]
+      refine ⟨by simp, fun w => ?_, fun w t v => by simp⟩
+      constructor
+      · intro h; injection h with h; exact ⟨by rw [h], trivial⟩
+      · intro h; have : w0 = w := by simpa using h.1
+        rw [this]
+    · simp only [hx, if_false]
+      refine ⟨by simp, fun w => by simp, fun w t v => ?_⟩
+      constructor
+      · intro h; injection h with h1 h2 h3; exact ⟨by rw [h1], not_false, h2.symm, h3.symm⟩
+      · rintro ⟨h1, _, h2, h3⟩
+        have : w0 = w := by simpa using h1
+        rw [this, h2, h3]
+
 /-- the boosting model's prediction is its bias plus the sum of its weak learners' predictions -/
 theorem predict_append (bias : α) (ws : List (X → α)) (x : X) :
     predict bias ws x = bias + (ws.map (fun w => w x)).sum := predict_eq bias ws x
@@ -336,6 +484,17 @@ example : (fit (L := Nat) (1/4 : ℚ) 2 1 1 100 1000 1 1
 /-- scaling failure after one accepted round: the failed learner is appended, then erased -/
 example : (fit (L := Nat) (1/4 : ℚ) 2 1 1 100 1000 1 1 [.fitted 10 1 (1/2), .scaleFail 11, .fitted 12 1 0]).1 = [10] := by
   decide +kernel
+/-- the same fit from observations: round 0 has two prototypes (scores 5 and 3: the second is chosen), round 1 ties (the
+    first is chosen), round 2 fails the scaling (`x.min() = 0`), no score below `no_fit_score() = 100` would end the loop -/
+example : (fitObs (L := Nat) (1/4 : ℚ) 2 1 1 100 1000 100 (1/1000) 1 1
+    [{ cands := [(5, 10), (3, 11)], xmin := 1, train := 1, valid := 1/2 },
+     { cands := [(2, 20), (2, 21)], xmin := 1, train := 1, valid := 1/8 },
+     { cands := [(1, 30)], xmin := 0, train := 1, valid := 0 }]).1 = [11, 20] := by decide +kernel
+example : roundEv (L := Nat) (100 : ℚ) (1/1000) { cands := [(100, 1), (200, 2)], xmin := 1, train := 0, valid := 0 } = .noLearner :=
+  (roundEv_spec _ _ _).1.mpr (by decide +kernel)
+/-- the calls of the four-round fit above: numbered 0..3, the last one stops -/
+example : (fitCalls (L := Nat) (1/4 : ℚ) 2 1 1 100 1000 1 1
+    [.fitted 10 1 (1/2), .fitted 11 1 (1/4), .fitted 12 1 (3/8), .fitted 13 1 0]).map (·.n) = [0, 1, 2, 3] := by decide +kernel
 /-- two folds `(1, [x ↦ x])`, `(3, [x ↦ 2x, x ↦ 1])`: the average predicts `(1 + 2) + (3 + 4 + 1)` / 2 at `x = 2` -/
 example : predict (averaged (0 : ℚ) (1/2) [(1, [fun x : ℚ => x]), (3, [fun x => 2 * x, fun _ => 1])]).1
     (averaged (0 : ℚ) (1/2) [(1, [fun x : ℚ => x]), (3, [fun x => 2 * x, fun _ => 1])]).2 2 = 11 / 2 := by
